@@ -151,7 +151,7 @@ theorem evalArms_spec (cfg : Cfg) : ∀ (arms : List (List Expr × Expr)) (fuel 
 
 /-- `Eq_Pop_Once`: compares the two topmost values, pops only the upper one. -/
 theorem mkS_eqPopOnce (code : Code) (lim : Limits) (s : VMState) (fn : String) (ip : Nat) (rest : List Frame)
-    (mp : Int) (k : Nat) (stk : List SVal) (mem : List (Int × Val)) (out : World) (c : List (RInstr × Span))
+    (mp : Int) (k : Nat) (stk : List SVal) (mem : Mem) (out : World) (c : List (RInstr × Span))
     (hf : findCode code fn = some c) (sp : Span) (l r : SVal) (b : Bool)
     (hx : c[ip]? = some (.eqPopOnce, sp)) (he : valEq out.heap 64 l.v r.v = some b) :
     exec1 code lim (mkS s (⟨fn, ip⟩ :: rest) mp k (l :: r :: stk) mem out) =
@@ -167,20 +167,20 @@ theorem litCode_notLabel (l : Expr) : ∀ p ∈ litCode l, isLabel p.1 = false :
 
 /-- A literal is pushed. -/
 theorem lit_runs (G : GCtx) (A : Act) (hA : A.OK G) (l : Expr) (hl : Frag.litE l = true) (ip : Nat)
-    (stk : List SVal) (mem : List (Int × Val)) (w : World) (hpl : Placed A.lab A.σ A.c ip (litCode l)) :
-    Runs G.code G.lim G.s A.fn A.rest A.mp ip stk mem w (ip + 1) (⟨litVal l, none⟩ :: stk) mem w := by
+    (stk : List SVal) (mem : Mem) (w : World) (hpl : Placed A.lab A.σ A.c ip (litCode l)) :
+    Runs G.fr G.code G.lim G.s A.fn A.rest A.mp ip stk mem w (ip + 1) (⟨litVal l, none⟩ :: stk) mem w := by
   cases l <;> simp [Frag.litE] at hl
   case int sp v =>
     obtain ⟨ix, _⟩ := hpl.instr (i := .copyPush (.int v)) rfl
-    exact Runs.of_runsTo (RunsTo.of_exec1 (fun k => reach_push G.code G.lim (baseOf G.s A.fn A.rest A.mp w) ip k stk mem
+    exact Runs.of_runsTo (fr := G.fr) (fun it_ => RunsTo.of_exec1 (fun k => reach_push G.code G.lim (baseOf (withIt G.s it_) A.fn A.rest A.mp w) ip k stk mem
       ⟨A.fn, 0⟩ A.rest A.c rfl hA.code (.int v) sp _ ix (fun _ => rfl)))
   case bool sp b =>
     obtain ⟨ix, _⟩ := hpl.instr (i := .copyPush (.bool b)) rfl
-    exact Runs.of_runsTo (RunsTo.of_exec1 (fun k => reach_push G.code G.lim (baseOf G.s A.fn A.rest A.mp w) ip k stk mem
+    exact Runs.of_runsTo (fr := G.fr) (fun it_ => RunsTo.of_exec1 (fun k => reach_push G.code G.lim (baseOf (withIt G.s it_) A.fn A.rest A.mp w) ip k stk mem
       ⟨A.fn, 0⟩ A.rest A.c rfl hA.code (.bool b) sp _ ix (fun _ => rfl)))
   case str sp x =>
     obtain ⟨ix, _⟩ := hpl.instr (i := .copyPush (.str x)) rfl
-    exact Runs.of_runsTo (RunsTo.of_exec1 (fun k => reach_push G.code G.lim (baseOf G.s A.fn A.rest A.mp w) ip k stk mem
+    exact Runs.of_runsTo (fr := G.fr) (fun it_ => RunsTo.of_exec1 (fun k => reach_push G.code G.lim (baseOf (withIt G.s it_) A.fn A.rest A.mp w) ip k stk mem
       ⟨A.fn, 0⟩ A.rest A.c rfl hA.code (.str x) sp _ ix (fun _ => rfl)))
 
 theorem nI_litCode (l : Expr) (h : Frag.litE l = true) : nI (litCode l) = 1 := by
@@ -189,11 +189,11 @@ theorem nI_litCode (l : Expr) (h : Frag.litE l = true) : nI (litCode l) = 1 := b
 /-- **The tests of one arm** with the control value `cv` on top of the stack: a hit jumps to the
 arm's label, otherwise the VM falls through; the control value stays. -/
 theorem litTests_run (G : GCtx) (A : Act) (hA : A.OK G) (sp : Span) (name : String) (cv : SVal)
-    (stk : List SVal) (mem : List (Int × Val)) (w : World) : ∀ (lits : List Expr) (ip : Nat),
+    (stk : List SVal) (mem : Mem) (w : World) : ∀ (lits : List Expr) (ip : Nat),
     (∀ l ∈ lits, Frag.litE l = true) → Placed A.lab A.σ A.c ip (litTests sp name lits) →
     match litsHit w.heap cv.v lits with
-    | some true => Runs G.code G.lim G.s A.fn A.rest A.mp ip (cv :: stk) mem w (A.lab name) (cv :: stk) mem w
-    | some false => Runs G.code G.lim G.s A.fn A.rest A.mp ip (cv :: stk) mem w
+    | some true => Runs G.fr G.code G.lim G.s A.fn A.rest A.mp ip (cv :: stk) mem w (A.lab name) (cv :: stk) mem w
+    | some false => Runs G.fr G.code G.lim G.s A.fn A.rest A.mp ip (cv :: stk) mem w
         (ip + nI (litTests sp name lits)) (cv :: stk) mem w
     | none => True := by
   intro lits
@@ -216,13 +216,13 @@ theorem litTests_run (G : GCtx) (A : Act) (hA : A.OK G) (sp : Span) (name : Stri
     cases he : valEq w.heap 64 (litVal l) cv.v with
     | none => trivial
     | some b =>
-      have heq := Runs.of_exec1 (fun k => mkS_eqPopOnce G.code G.lim G.s A.fn (ip + 1) A.rest A.mp k stk mem w A.c
+      have heq := Runs.of_exec1 (fr := G.fr) (fun it_ k => mkS_eqPopOnce G.code G.lim (withIt G.s it_) A.fn (ip + 1) A.rest A.mp k stk mem w A.c
         hA.code sp ⟨litVal l, none⟩ cv b ieq he)
-      have hnot := Runs.of_runsTo (RunsTo.of_exec1 (fun k => reach_pre G.code G.lim (baseOf G.s A.fn A.rest A.mp w)
+      have hnot := Runs.of_runsTo (fr := G.fr) (fun it_ => RunsTo.of_exec1 (fun k => reach_pre G.code G.lim (baseOf (withIt G.s it_) A.fn A.rest A.mp w)
         (ip + 1 + 1) k (cv :: stk) mem ⟨A.fn, 0⟩ A.rest A.c rfl hA.code .not sp A.lab A.σ (.bool b) (.bool (!b)) none
         inot rfl))
-      have hjif := Runs.of_runsTo (RunsTo.of_exec1 (fun k => reach_jumpIfFalse G.code G.lim
-        (baseOf G.s A.fn A.rest A.mp w) (ip + 1 + 1 + 1) k (cv :: stk) mem ⟨A.fn, 0⟩ A.rest A.c rfl hA.code
+      have hjif := Runs.of_runsTo (fr := G.fr) (fun it_ => RunsTo.of_exec1 (fun k => reach_jumpIfFalse G.code G.lim
+        (baseOf (withIt G.s it_) A.fn A.rest A.mp w) (ip + 1 + 1 + 1) k (cv :: stk) mem ⟨A.fn, 0⟩ A.rest A.c rfl hA.code
         (A.lab name) sp (!b) none ijif))
       have hpre := ((hpush.trans heq).trans hnot).trans hjif
       cases b with
@@ -232,7 +232,7 @@ theorem litTests_run (G : GCtx) (A : Act) (hA : A.OK G) (sp : Span) (name : Stri
       | false =>
         simp only []
         have hrest := ih (ip + (1 + 3)) (fun l' hl' => hl l' (by simp [hl'])) hplR
-        have hpre' : Runs G.code G.lim G.s A.fn A.rest A.mp ip (cv :: stk) mem w (ip + (1 + 3)) (cv :: stk) mem w :=
+        have hpre' : Runs G.fr G.code G.lim G.s A.fn A.rest A.mp ip (cv :: stk) mem w (ip + (1 + 3)) (cv :: stk) mem w :=
           hpre.cast (by simp)
         cases hh : litsHit w.heap cv.v ls with
         | none => trivial
@@ -251,12 +251,12 @@ theorem armTests_length (mod : String) (sp : Span) : ∀ (arms : List (List Expr
 
 /-- **The whole cascade**: the first arm that hits is jumped to; with no hit the VM falls through. -/
 theorem armTests_run (G : GCtx) (A : Act) (hA : A.OK G) (sp : Span) (cv : SVal)
-    (stk : List SVal) (mem : List (Int × Val)) (w : World) : ∀ (arms : List (List Expr × Expr)) (lm : LM) (ip : Nat),
+    (stk : List SVal) (mem : Mem) (w : World) : ∀ (arms : List (List Expr × Expr)) (lm : LM) (ip : Nat),
     (∀ a ∈ arms, ∀ l ∈ a.1, Frag.litE l = true) → Placed A.lab A.σ A.c ip (armTests G.mod sp arms lm).1 →
     match armsHit w.heap cv.v arms with
     | some (some i) => ∃ nm, (armTests G.mod sp arms lm).2.1[i]? = some nm ∧
-        Runs G.code G.lim G.s A.fn A.rest A.mp ip (cv :: stk) mem w (A.lab nm) (cv :: stk) mem w
-    | some none => Runs G.code G.lim G.s A.fn A.rest A.mp ip (cv :: stk) mem w
+        Runs G.fr G.code G.lim G.s A.fn A.rest A.mp ip (cv :: stk) mem w (A.lab nm) (cv :: stk) mem w
+    | some none => Runs G.fr G.code G.lim G.s A.fn A.rest A.mp ip (cv :: stk) mem w
         (ip + nI (armTests G.mod sp arms lm).1) (cv :: stk) mem w
     | none => True := by
   intro arms
